@@ -530,7 +530,7 @@ func (g *c20Gen) validSeq() *workflow.Sequence {
 func (g *c20Gen) validBlock() builder.BlockArgs {
 	g.n++
 	return builder.BlockArgs{Key: g.key(), Name: fmt.Sprintf("block%d", g.n), Descr: fmt.Sprintf("block %d descr", g.n),
-		EntranceDelay: time.Duration(g.r.Intn(3)) * time.Second, ExitDelay: time.Duration(g.r.Intn(3)) * time.Second, Concurrency: g.r.Intn(4), ToleratedFailures: g.r.Intn(3)}
+		EntranceDelay: time.Duration(g.r.Intn(3)) * time.Second, ExitDelay: time.Duration(g.r.Intn(3)) * time.Second, Concurrency: g.r.Intn(4), ToleratedFailures: g.r.Intn(4) - 1}
 }
 
 // reset builds a New/Reset call. variant: valid | group-id | missing-name | nil-group-id | nil-option
